@@ -474,6 +474,18 @@ pub fn run(args: &Args) -> i32 {
             tasks.push(Task { cell, topo, params: p, bound: if topo == "L3-flaky" { d_all.min(3) } else { d_all.min(3) - 1 } });
         }
     }
+    // long runs: 40 rounds on a 3-hop path (sequence offsets up to 120), and 40 rounds of 16 probes
+    // towards a silent target from the highest initial sequence (the numbering restarts once)
+    for cell in drive::base_cells() {
+        for (topo, max_ttl, init) in [("L3", 8u8, 33434u16), ("silent-target", 16, 64511)] {
+            let mut p = TraceParams::default();
+            p.rounds = 40;
+            p.max_ttl = max_ttl;
+            p.initial_sequence = init;
+            p.packet_size = if cell.v6 { 96 } else { 84 };
+            tasks.push(Task { cell, topo, params: p, bound: if tier == Tier::Thorough { 2 } else { 1 } });
+        }
+    }
     if tier == Tier::Thorough {
         // three rounds (carried-over target distance) on the base cells
         for cell in drive::base_cells() {
@@ -486,9 +498,9 @@ pub fn run(args: &Args) -> i32 {
         }
     }
     let agg = Mutex::new(Agg::default());
-    let max_points = 400;
     mc::par_for(tasks.len(), mc::workers(), |ti| {
         let t = &tasks[ti];
+        let max_points = if t.params.rounds >= 40 { 40_000 } else { 400 };
         let mut local = Agg::default();
         let mut digests: HashSet<u64> = HashSet::new();
         let mut first = true;
@@ -609,7 +621,7 @@ pub fn run(args: &Args) -> i32 {
     rep.set("determinism_replays", json!(a.determinism_replays));
     rep.set("rule", json!(format!(
         "56 cells x {} topologies x first_ttl{{1,2}}, {} rounds: ALL executions of the real Builder->Tracer->Strategy->Channel<SimSocket>->codec->State stack with <= d deviations (delay, reorder, duplicate, loss) from the ideal network, d={} (all) / {} (base cells); states = nodes of the choice tree; distinct_nontrivial = distinct published-round digests summed over tasks",
-        TOPOLOGIES.len(), rounds, d_all, d_base) + "; + every privileged cell x {L3, silent-target} with rounds one receive wait long (3 rounds, max_ttl 4: late responses land in the next round); + every tcp cell x {L2,L3,silent-mid,dup} x tcp connect timeout {5,15,25,35} ms (connection attempts expiring in the polls in which younger ones complete); + every privileged cell x {L3 with the socket failures the cell survives offered at every send/bind/connect + delay + loss; path 2->3 hops and 4->2 hops changing between the rounds}"));
+        TOPOLOGIES.len(), rounds, d_all, d_base) + "; + every privileged cell x {L3, silent-target} with rounds one receive wait long (3 rounds, max_ttl 4: late responses land in the next round); + every tcp cell x {L2,L3,silent-mid,dup} x tcp connect timeout {5,15,25,35} ms (connection attempts expiring in the polls in which younger ones complete); + every privileged cell x {L3 with the socket failures the cell survives offered at every send/bind/connect + delay + loss; path 2->3 hops and 4->2 hops changing between the rounds}; + 14 base cells x {3-hop path, 40 rounds; silent target, 16 probes per round, 40 rounds from initial sequence 64511 across the restart of the numbering}, <= 1 (2 thorough) deviations"));
     rep.observe("executions_with_awaited_probe", json!(a.awaited_runs));
     rep.observe("executions_with_reorder", json!(a.reorder_runs));
     rep.observe("executions_with_duplicate", json!(a.dup_runs));
